@@ -16,7 +16,7 @@
    satisfiable on concrete mutated documents under the Gallina ChaCha20-Poly1305 / HMAC
    (Examples in C02/Proofs_Concrete.v).  [effective_key] = the file key Decrypt ends up with
    (what the unwrap callback returned, or the all-zero key when it failed). *)
-From Kit Require Import C02.Defs C02.Proofs C02.Proofs_Concrete C01.Concrete C01.Proofs_Segments.
+From Kit Require Import C02.Defs C02.Proofs C02.Proofs_Concrete C01.Concrete C01.Proofs_Segments C01.Proofs_Oracle.
 
 (* Release only after open (no premise, any input, any unwrap callback): when Decrypt returns a
    stream, the header MAC was verified under the key in use, and every chunk handed to the
@@ -198,3 +198,15 @@ Proof.
                                    (run_chunks_fail_not_clean fn _ _ _)).
 Qed.
 Print Assumptions C02_segment_loop_source_error.
+
+(* The boolean oracle the correspondence check evaluates on what Decrypt was OBSERVED to do with
+   a tampered input decides the property: the released bytes are a prefix of the original
+   plaintext, a clean EOF comes only with the whole plaintext, and a source failure is never a
+   clean EOF. *)
+Theorem C02_oracle_sound :
+  forall (p out : list N) (clean src_failed : bool),
+    tamper_oracle p out clean src_failed = true <->
+    ((exists rest, p = out ++ rest) /\ (clean = true -> out = p) /\
+     (src_failed = true -> clean = false)).
+Proof. exact tamper_oracle_sound. Qed.
+Print Assumptions C02_oracle_sound.
